@@ -272,6 +272,10 @@ pub enum ScanItem {
     Trailer(Dictionary)
 }
 
+/// Typed loads may nest (a page loads its parent, which loads its parent ...). Every level costs stack, and a
+/// file can make the chain as long as it has objects, so the depth is limited.
+const MAX_LOAD_DEPTH: usize = 64;
+
 struct StorageResolver<'a, B, OC, SC, L> {
     storage: &'a Storage<B, OC, SC, L>,
     chain: Mutex<Vec<PlainRef>>,
@@ -324,6 +328,9 @@ where
             let mut chain = self.chain.lock().unwrap();
             if chain.contains(&key) {
                 bail!("Recursive reference");
+            }
+            if chain.len() >= MAX_LOAD_DEPTH {
+                bail!("objects nested too deeply");
             }
             chain.push(key);
         }
